@@ -207,17 +207,19 @@ example : stopWaitAnswer { state := .stopping, pid := 5 } = none := by decide
 
 open Sv.AllFunc (Entry Answer Ev eligIds Reports EntryFor callsOf testsOf pollsOf makeNamespec PSpec)
 
-/-- the model applies to the source as it is: every statement-level fact it was written against is extracted `true` --
+/-- **The model is the source as it is**: every statement-level fact it was written against is extracted `true` --
     the poll loop runs over a copy (`callbacks[:]`), a finished callback is taken out by `callbacks.remove(struct)`,
     the tuple is unpacked in the order it was packed, `func` is called at one place, in the walk, with the namespec,
-    and entries are appended in the four branches walkErr / walkOk / pollErr / pollOk -/
+    entries are appended in the four branches walkErr / walkOk / pollErr / pollOk, and the two lists are touched exactly
+    where `AllFunc.expectedPlacement` says (the SUCCESS entry of a polled callback only under `value is not NOT_DONE_YET`) -/
 theorem group_structure_facts :
     Sv.Gen.AllFunc.pollLoopOverCopy = true ∧ Sv.Gen.AllFunc.pollRemovesStruct = true ∧
     Sv.Gen.AllFunc.structPackedAsUnpacked = true ∧ Sv.Gen.AllFunc.funcCalledOnlyInWalk = true ∧
     Sv.Gen.AllFunc.pollListOps = ["callbacks.remove(struct)", "callbacks.remove(struct)"] ∧
+    Sv.Gen.AllFunc.listOpPlacement = AllFunc.expectedPlacement ∧
     AllFunc.structureOk = true := by decide
 
-/-- the model never declines: no invocation under the protocol answers `unmodelled` -/
+/-- **The model never declines**: no invocation under the protocol answers `unmodelled` -/
 theorem group_model_applies (env : AllFunc.Env) (n : Nat) : (AllFunc.run env n).2 ≠ some .unmodelled := by
   have h := AllFunc.run_inv env n
   intro hu
@@ -239,13 +241,7 @@ theorem group_conservation (env : AllFunc.Env) (n : Nat) (hn : 0 < n) :
       ∀ p, p ∈ lab → EntryFor env p.1 p.2 := by
   have h := AllFunc.run_inv env n
   cases ha : (AllFunc.run env n).2 with
-  | none =>
-    cases n with
-    | zero => exact absurd hn (Nat.lt_irrefl 0)
-    | succ n =>
-      exfalso
-      simp only [AllFunc.run, AllFunc.tick] at ha
-      split at ha <;> simp_all
+  | none => exact absurd (AllFunc.run_none env n ha) (Nat.pos_iff_ne_zero.1 hn)
   | some a =>
     simp only [AllFunc.RunInv, ha] at h
     obtain ⟨⟨done, hinv⟩, _⟩ := h
@@ -294,7 +290,7 @@ theorem group_one_entry_per_eligible (env : AllFunc.Env) (n : Nat) (rs : List En
   rw [h1]
   exact hperm.map _
 
-/-- the same for a process list given as a list: the names of the final entries are, up to order, the names of
+/-- **The same for a process list given as a list**: the names of the final entries are, up to order, the names of
     `ps.filter (·.eligible)` -/
 theorem group_one_entry_per_eligible_list (ps : List PSpec) (n : Nat) (rs : List Entry)
     (h : (AllFunc.run (AllFunc.Env.ofList ps) n).2 = some (.results rs)) :
@@ -303,8 +299,8 @@ theorem group_one_entry_per_eligible_list (ps : List PSpec) (n : Nat) (rs : List
   rw [← AllFunc.eligIds_ofList_map ps (fun p => (p.group, p.name))]
   exact this
 
-/-- consequences: as many entries as eligible processes; every entry belongs to an eligible process of the list; and
-    every eligible process has an entry -/
+/-- **None missing, none extra**: as many entries as eligible processes; every entry belongs to an eligible process of the
+    list (none for an ineligible one); and every eligible process has an entry -/
 theorem group_entries_count (env : AllFunc.Env) (n : Nat) (rs : List Entry)
     (h : (AllFunc.run env n).2 = some (.results rs)) :
     rs.length = (eligIds env).length ∧
@@ -375,13 +371,7 @@ theorem group_func_called_once (env : AllFunc.Env) (n : Nat) (hn : 0 < n) :
     testsOf (AllFunc.run env n).1.log = List.range env.n := by
   have h := AllFunc.run_inv env n
   cases ha : (AllFunc.run env n).2 with
-  | none =>
-    cases n with
-    | zero => exact absurd hn (Nat.lt_irrefl 0)
-    | succ n =>
-      exfalso
-      simp only [AllFunc.run, AllFunc.tick] at ha
-      split at ha <;> simp_all
+  | none => exact absurd (AllFunc.run_none env n ha) (Nat.pos_iff_ne_zero.1 hn)
   | some a =>
     simp only [AllFunc.RunInv, ha] at h
     exact ⟨h.2.2.1, h.2.2.2⟩
@@ -398,7 +388,45 @@ theorem group_polls_once_per_invocation (env : AllFunc.Env) (n : Nat) (h : (AllF
   simp only [AllFunc.run, AllFunc.tick, h]
   exact AllFunc.invoke_next_log env _ hne
 
-/-- once the call has answered with a result list it is not invoked again: state and answer stay as they are -/
+/-- **A callback is still pending after `n` invocations only if it has been polled exactly `n` times and said NOT_DONE_YET
+    every time** (each invocation polls every pending callback exactly once) -/
+theorem group_pending_polled_n_times (env : AllFunc.Env) (n : Nat) (h : (AllFunc.run env n).2 = some .notDoneYet)
+    (i : Nat) (hi : i ∈ (AllFunc.run env n).1.callbacks) :
+    i < env.n ∧ env.eligible i = true ∧ env.imm i = .deferred ∧ (AllFunc.run env n).1.polled i = n ∧
+    ∀ j, j < n → env.polls i j = .notDone := by
+  have hs := AllFunc.run_sync env n h i hi
+  have hr := AllFunc.run_inv env n
+  simp only [AllFunc.RunInv, h] at hr
+  obtain ⟨⟨done, hinv⟩, _⟩ := hr
+  have hmem : i ∈ eligIds env := hinv.perm.mem_iff.1 (List.mem_append_left _ hi)
+  simp only [eligIds, List.mem_filter, List.mem_range] at hmem
+  obtain ⟨hd, hp⟩ := hinv.pending i hi
+  rw [hs] at hp
+  exact ⟨hmem.1, hmem.2, hd, hs, hp⟩
+
+/-- **The call answers**: if the callback of every eligible process whose single call was deferred says something other
+    than NOT_DONE_YET within its first `K` polls, the group call answers with its result list after at most `K + 1`
+    invocations (to which `group_entries_exact` then applies). -/
+theorem group_answers_eventually (env : AllFunc.Env) (K : Nat)
+    (hK : ∀ i, i < env.n → env.eligible i = true → env.imm i = .deferred → ∃ k, k < K ∧ env.polls i k ≠ .notDone) :
+    ∃ rs, (AllFunc.run env (K + 1)).2 = some (.results rs) := by
+  cases ha : (AllFunc.run env (K + 1)).2 with
+  | none => exact absurd (AllFunc.run_none env (K + 1) ha) (Nat.succ_ne_zero K)
+  | some a =>
+    cases a with
+    | results rs => exact ⟨rs, rfl⟩
+    | unmodelled => exact absurd ha (group_model_applies env (K + 1))
+    | notDoneYet =>
+      exfalso
+      have hne := (group_answer_iff_pending env (K + 1) _ ha).1.1 rfl
+      cases hc : (AllFunc.run env (K + 1)).1.callbacks with
+      | nil => exact hne hc
+      | cons i rest =>
+        obtain ⟨hi, he, hd, _, hp⟩ := group_pending_polled_n_times env (K + 1) ha i (by rw [hc]; simp)
+        obtain ⟨k, hk, hk'⟩ := hK i hi he hd
+        exact hk' (hp k (Nat.lt_succ_of_lt hk))
+
+/-- **Once the call has answered with a result list it is not invoked again**: state and answer stay as they are -/
 theorem group_answer_final (env : AllFunc.Env) (n : Nat) (rs : List Entry) (h : (AllFunc.run env n).2 = some (.results rs)) :
     AllFunc.run env (n + 1) = AllFunc.run env n := by
   simp only [AllFunc.run, AllFunc.tick, h]
@@ -446,6 +474,8 @@ example : (AllFunc.run exEnv 3).2 = some (.results [
 example : (AllFunc.run exEnv 2).1.callbacks = [0] ∧ (AllFunc.run exEnv 1).1.callbacks = [0, 1] := by decide
 example : callsOf (AllFunc.run exEnv 3).1.log = [(0, "g:a"), (1, "g:b"), (3, "h:c"), (4, "h")] := by decide
 example : eligIds exEnv = [0, 1, 3, 4] := by decide
+-- the hypothesis of group_answers_eventually holds for exEnv with K = 3 ... and not with K = 2 (a still pending)
+example : ∀ i, i < exEnv.n → exEnv.eligible i = true → exEnv.imm i = .deferred → ∃ k, k < 3 ∧ exEnv.polls i k ≠ .notDone := by decide
 -- nothing eligible: answered at once with the empty list
 example : (AllFunc.run (AllFunc.Env.ofList [{ group := "g", name := "a", eligible := false, imm := .value, polls := fun _ => .value }]) 1).2
     = some (.results []) := by decide
